@@ -14,6 +14,7 @@ from pyab_experiment.data_structures.syntax_tree import (
 )
 from pyab_experiment.language.lexer import ExperimentLexer
 from pyab_experiment.sly import Parser
+from pyab_experiment.sly.yacc import YaccError
 
 
 class ExperimentParser(Parser):
@@ -28,6 +29,14 @@ class ExperimentParser(Parser):
     # Uncomment to print updated grammar
     # debugfile = 'parser.out'
     tokens = ExperimentLexer.tokens
+
+    def error(self, token):
+        # no error recovery: sly's default handler only prints and then discards
+        # tokens until something parses, which silently accepts malformed sources
+        if token:
+            lineno = getattr(token, "lineno", 0)
+            raise YaccError(f"Syntax error at line {lineno}, token={token.type}")
+        raise YaccError("Syntax error: unexpected end of input")
 
     precedence = (
         ("left", KW_OR),
